@@ -187,7 +187,7 @@ def history_suites(fmt, tier, flags=None, seeks=True, pols=False, serde=False):
     if fmt == "fasta":
         out.append(("enum%d-hist-depth2" % L, suite(fmt, enum(alpha, L), {"upto_len_plus": 2}, {"enum": {"ops": ops, "depth": 2, "tails": tails}},
                                                     chunks=[[0]], slots=2, extra=1, flags=fl, sample=q(tier, 4, 0)), 8))
-    rh = {"rand": {"n": q(tier, 3, 6), "len": 6, "seeks": seeks, "pols": pols, "serde": serde, "maxn": 3}}
+    rh = {"rand": {"n": q(tier, 3, 6), "len": 6, "seeks": seeks, "pols": pols, "serde": serde, "maxn": 3, "shrink": True}}
     out.append(("struct-randhist", suite(fmt, rnd(q(tier, 2500, 30000), maxrec=5, maxfield=4, damage=25), {"upto_len_plus": 3}, rh,
                                          chunks=[[0], [1], [2, 3]], conf_sample=q(tier, 5, 10), slots=3, extra=2, flags=fl), 8))
     out.append(("struct-fixedhist", suite(fmt, rnd(q(tier, 600, 6000), maxrec=6, maxfield=3, damage=15), {"upto_len_plus": 1},
